@@ -1,11 +1,14 @@
 package rig
 
 import (
+	"errors"
 	"fmt"
 	"net"
 	"net/http"
 	"strings"
 	"time"
+
+	"github.com/wi1dcard/fingerproxy/pkg/reverseproxy"
 
 	"verifharness/ref/hellogen"
 )
@@ -24,6 +27,9 @@ type ConnScript struct {
 	// AppendCCS: a change_cipher_spec record (14 03 03 00 01 01, which TLS 1.3 servers must ignore) leaves in
 	// the same write as the ClientHello record: the first read of the server holds more than the first record
 	AppendCCS bool `json:"append_ccs,omitempty"`
+	// ConnectionTokens (HTTP/1.1 only): header names the client lists in a Connection header, i.e. declares
+	// hop-by-hop; a client may name the fingerprint headers there
+	ConnectionTokens []string `json:"connection_tokens,omitempty"`
 }
 
 // ccsAppender adds a change_cipher_spec record to the first write that carries a handshake record.
@@ -71,6 +77,13 @@ type constInjector struct{ name, val string }
 
 func (c constInjector) GetHeaderName() string                        { return c.name }
 func (c constInjector) GetHeaderValue(*http.Request) (string, error) { return c.val, nil }
+
+type errInjector struct{ name string }
+
+func (e errInjector) GetHeaderName() string { return e.name }
+func (e errInjector) GetHeaderValue(*http.Request) (string, error) {
+	return "", errors.New("verif: this injector always fails")
+}
 
 // splitFirstRecord rewrites the first TLS record written through c into two records.
 type helloSplitter struct {
@@ -177,6 +190,9 @@ func RunConn(p *Proxy, s ConnScript, tag string) *ConnResult {
 		h := NewH1(c.Conn)
 		for i := 0; i < s.NReq; i++ {
 			extra := ""
+			if len(s.ConnectionTokens) > 0 {
+				extra += "Connection: keep-alive, " + strings.Join(s.ConnectionTokens, ", ") + "\r\n"
+			}
 			for _, hd := range s.ExtraHeaders {
 				extra += hd[0] + ": " + hd[1] + "\r\n"
 			}
@@ -203,7 +219,9 @@ func handshakeOver(raw *Conn, w *helloSplitter, o ClientOpts) (*TLSClient, error
 func DefaultProxyOpts(custom bool) ProxyOpts {
 	o := ProxyOpts{IdleTimeout: time.Minute, TLSHandshakeTimeout: 10 * time.Second}
 	if custom {
-		o.Injectors = append(DefaultInjectors(^uint(0)), constInjector{"X-Custom-Fingerprint", "custom-value"})
+		// a user-supplied injector that fails for every request comes first, one that yields a constant last: neither
+		// may disturb the default three in between
+		o.Injectors = append(append([]reverseproxy.HeaderInjector{errInjector{"X-Fails-First"}}, DefaultInjectors(^uint(0))...), constInjector{"X-Custom-Fingerprint", "custom-value"})
 	}
 	return o
 }
